@@ -470,12 +470,12 @@ fn slice(array: &[Rcvar], start: Option<i32>, stop: Option<i32>, step: i32) -> V
     if step > 0 {
         while i < b {
             result.push(array[i as usize].clone());
-            i += step;
+            i = i.saturating_add(step);
         }
     } else {
         while i > b {
             result.push(array[i as usize].clone());
-            i += step;
+            i = i.saturating_add(step);
         }
     }
     result
